@@ -42,6 +42,11 @@ func runC05(r *Run) {
 	c05Wrappers(r)
 	c05LogList(r)
 	c05Ctutil(r)
+
+	// signed-field coverage of the SCT / STH signature inputs (rule set of C04.R3)
+	r.Shared("C05.R7", func() {
+		c04Inputs(r)
+	})
 }
 
 // ---- R1 / R2: tls.VerifySignature ---------------------------------------------
